@@ -9,8 +9,9 @@ INV_OF = {  # which formulas each property owns (R6: a check reports only its ow
     "C19": ["DrainAll", "TickHonest", "NoLag", "ConservationT", "NothingLost"],
     "C02": ["ConservationT", "NothingLost", "AckCoversAll", "CloseCovers", "DrainAll"],
     "C09": ["ConservationT", "NothingLost", "AckCoversAll", "CloseCovers", "RequeueKept"],
+    "C08": ["RetireRespectsPins", "AckCoversAll"],
 }
-ALL_INV = ["ConservationT", "NothingLost", "AckCoversAll", "CloseCovers", "DrainAll", "RequeueKept", "TickHonest", "NoLag"]
+ALL_INV = ["ConservationT", "NothingLost", "AckCoversAll", "CloseCovers", "DrainAll", "RequeueKept", "TickHonest", "NoLag", "RetireRespectsPins"]
 
 
 def jobs_for(prop, tier, rng):
@@ -33,6 +34,12 @@ def jobs_for(prop, tier, rng):
         if prop in ("C02",):
             add("bigburst_%d" % i, "bigburst", 2, burst=7, blocks=20480)
             add("bigburst4_%d" % i, "bigburst", 4, burst=12, blocks=28672)
+        if prop in ("C08",):
+            # a reader keeps its pin for seconds while the deleted generation's retirement is asked for again and again
+            # (flush() re-asks about once per millisecond)
+            add("longpin4_%d" % i, "pinned", 4, steps=25, pinms=2600)
+            add("longpin2_%d" % i, "pinned", 2, steps=25, pinms=1700)
+            add("mixedc_%d" % i, "mixed", 4, steps=60, cache=0)
         if prop in ("C09",):
             add("faulty4_%d" % i, "faulty", 4, steps=60, sync=1)
             add("faulty2_%d" % i, "faulty", 2, steps=60, sync=1)
@@ -69,6 +76,7 @@ def rename(raw_path, out_path):
     callers = {}
     out = []
     pend_rq = {}
+    pins = {}
     failed_final = 0
     pinned = 0
     last_drop_end = max([i for i, e in enumerate(evs) if e["e"] == "drop_end"] or [-1])
@@ -124,11 +132,17 @@ def rename(raw_path, out_path):
         elif k == "tick":
             out.append({"e": "tick", "w": a, "pending": b, "ret": c})
             stat["tick"] += 1
+        elif k == "pin":
+            pins.setdefault(a, []).append((e["key"], b))
+        elif k == "unpin":
+            if pins.get(a):
+                pins[a].pop()
         elif k in ("ret_drop", "ret_mark"):
+            held = 1 if k == "ret_mark" and any((e["key"], a) in v_ for v_ in pins.values()) else 0
             i = resolve(e["key"], a, 1, True)
             if i is None:
                 continue
-            out.append({"e": "ret", "id": i})
+            out.append({"e": "ret", "id": i, "pinned": held})
             stat["ret"] += 1
         elif k == "flush_begin":
             cid = callers.setdefault(e["tid"], len(callers) + 1)
